@@ -304,7 +304,9 @@ TARGETS = [None, '"t"', '"my_app::net"', '"a,b;c d"', '"//host/x"', '" sp /* c *
 KV_SHAPES = ['k = 1', 'k = "v"', 'k = "a;b,c"', 'k = x', 'k', 'k:? = x', 'k:% = x', 'k:debug = x', 'k:display', 'k:err = e',
              'k:sval = x', 'k:serde = x', '_0 = 1', 'k = __', '__x1', 'k = _1', 'k = "q\\"uote"', 'k = "path\\\\"',
              # comment-like text inside a key-value string
-             'k = "http://host/feed"', 'k = "a /* b */ c"', 'k = "glob/*"']
+             'k = "http://host/feed"', 'k = "a /* b */ c"', 'k = "glob/*"',
+             # string-literal keys (log >= 0.4.21)
+             '"q key" = 1', '"ref" = x']
 MESSAGES = ['plain', '{} {}', '{name:?}', 'say \\"hi\\"', 'é名😀', 'mid [ref: 12] text', ' leading blank', '\\tleading escape',
             '//host/path', '/* x */ y', '', '{{x}}', 'ends \\\\']
 TRAILING = ['', ', x', ', x, y', ', a = 1', ', "lit"', ',']
